@@ -225,6 +225,12 @@ def work_lemma(repo, ct, name: str, prop: str, tier: str, out: Dict[str, Any], t
     base = M.base_axioms()
     for fn_ in REG.axiom_fns:
         base += fn_(ct)
+    drop = list(getattr(lc, "drop", []) or [])      # an axiom that this very lemma establishes
+    if drop:
+        n0 = len(base)
+        base = [a for a in base if not any(a.eq(d) for d in drop)]
+        if len(base) != n0 - len(drop):
+            raise RuntimeError(f"lemma {name}: the axiom it proves was not found among the axioms")
     out.update(sha256="", paths=0, unsupported=None, assumptions=[], opaque_calls=[], inlined=[],
                exec_s=0.0, n_obligations=len(lc.obligations), is_lemma=True)
 
@@ -350,7 +356,7 @@ def run_check(prop: str, tier: str) -> int:
         print(f"ERROR no contracts registered for {prop}")
         return 3
     known = [k for k in load_known() if (k["property"] == prop or prop in k.get("also", []))
-             and k.get("engine", "pyvc") == "pyvc"]
+             and k.get("engine", "pyvc") in ("pyvc", "complement")]
     # known findings: replay each witness; a region is active only while its witness still fails
     active_regions: List[str] = []
     known_lines: List[str] = []
@@ -470,14 +476,8 @@ def run_check(prop: str, tier: str) -> int:
     complement = None
     if prop in COMPLEMENT_PROPS and not os.environ.get("PYVC_NO_COMPLEMENT"):
         complement = run_complement(prop, tier, seed)
-        comp_known = [k for k in load_known() if k.get("engine") == "complement"
-                      and (k["property"] == prop or prop in k.get("also", []))]
-        comp_active = []
-        for k in comp_known:
-            r = native_replay({"oracle": k.get("oracle", prop), "inputs": k["witness"], "meta": k.get("meta", {})})
-            if r.get("reproduced"):
-                comp_active.append(k["signature"])
-                known_lines.append(f"KNOWN-FINDING: property={prop} {k['what']}")
+        # (their witnesses were replayed above, with all listed findings of this property)
+        comp_active = [k["signature"] for k in known if k.get("engine") == "complement" and k["region"] in active_regions]
         complement["known_signatures_active"] = comp_active
         if complement.get("error"):
             errors.append("bounded complement failed to run: " + str(complement["error"])[:300])
